@@ -600,5 +600,37 @@ m('batch-close-skipped-when-empty','C20',BATCH,
 		g.log(err, "failed to close")
 		return
 	}''','R60/batch/dispatch#1/closing-boundary','an empty batch is answered without the closing boundary')
+# ---- side doors: a mutator reached through a narrower interface is still a mutator call
+m('delete-through-narrow-interface-outside-lock','C07',GCS,
+  '''func (g *GcsEmu) handleGcsDelete(ctx context.Context, w http.ResponseWriter, bucket string, filename string, conds cloudstorage.Conditions) {
+	err := g.locks.Run(ctx, lockName(bucket, filename), func(ctx context.Context) error {''',
+  '''func (g *GcsEmu) handleGcsDelete(ctx context.Context, w http.ResponseWriter, bucket string, filename string, conds cloudstorage.Conditions) {
+	if conds == (cloudstorage.Conditions{}) {
+		var d interface{ Delete(bucket string, filename string) error } = g.store
+		if d.Delete(bucket, filename) == nil {
+			w.WriteHeader(http.StatusNoContent)
+			return
+		}
+	}
+	err := g.locks.Run(ctx, lockName(bucket, filename), func(ctx context.Context) error {''',
+  'R11/','an unconditional delete bypasses the object lock through a locally declared interface')
+# ---- C02 / R62: the declared Content-Length never bounds a body read (gzip bodies are longer than declared)
+m('upload-body-sized-by-content-length','C02',GCS,
+  '''		contents, err := io.ReadAll(r.Body)
+		if err != nil {
+			g.gapiError(w, http.StatusBadRequest, "failed to read body")
+			return
+		}''','''		var contents []byte
+		var err error
+		if r.ContentLength > 0 {
+			contents = make([]byte, r.ContentLength)
+			_, err = io.ReadFull(r.Body, contents)
+		} else {
+			contents, err = io.ReadAll(r.Body)
+		}
+		if err != nil {
+			g.gapiError(w, http.StatusBadRequest, "failed to read body")
+			return
+		}''','R62/','a gzip-encoded media upload is truncated to its compressed length')
 json.dump(M, open('/verif/mutants.json','w'), indent=1)
 print(len(M),'mutants')
